@@ -666,6 +666,71 @@ def _splitter_shapes(tier):
     return shapes
 
 
+# ---------------------------------------------------------------------------------------------------------------- line by line
+# (kind, text, what it denotes: (connection tag, sent, interface, id, name, number of arguments) or None)
+STREAM_LINES = [
+    ('[1000.100]  -> wl_display@1.get_registry(new id wl_registry@2)', (None, True, 'wl_display', 1, 'get_registry', 1)),
+    ('[1000.200] {Default Queue} wl_registry#2.global(1, "wl_compositor", 4)', (None, False, 'wl_registry', 2, 'global', 3)),
+    ('[1000.300]  -> zz_iface@7.set_title("complete, with (brackets) and a , comma")', (None, True, 'zz_iface', 7, 'set_title', 1)),
+    # a line cut off in the middle of a string argument (the writer was interrupted, a truncated capture): it is no message line
+    ('[1000.400]  -> zz_iface@7.set_title("cut off in the midd', None),
+    ('[1000.500] {Default Queue} zz_iface#7.describe(3, "cut off, after a comma', None),
+    ('[1000.600] zz_iface@7.poke(', None),
+    ('program chatter "with a quote', None),
+    ('[1000.700] zz_iface@7.done(77)', (None, False, 'zz_iface', 7, 'done', 1)),
+    # one argument more / a message the shipped description of a known interface does not have (a newer protocol revision)
+    ('[1000.800] wl_display@1.error(wl_display@1, 2, "x", 4)', (None, False, 'wl_display', 1, 'error', 4)),
+    ('[1000.900]  -> wl_display@1.sync2(7, nil)', (None, True, 'wl_display', 1, 'sync2', 2)),
+]
+
+
+def stream_lines(ctx, case):
+    """the decoder works line by line: whatever came before (a cut-off line, chatter with an open quote), every line that is a printer line is decoded
+    into exactly the message it denotes, and a line that is none is not reported as one - through the real line loop (into_sink)"""
+    import logging
+    logging.disable(logging.CRITICAL)
+    from backends.libwayland_debug_output import parse
+    from core import wl
+    from core.output import Output
+    from lib.stubs import RecStream
+    n = case
+    from core.connection_manager import ConnectionManager
+    from harness import c08
+    c08._load_protocols()
+    wl.Message.base_time = None
+    idx = [ctx.choose(list(range(len(STREAM_LINES))), 'line%d' % k) for k in range(n)]
+    if idx.count(0) > 1:
+        ctx.assume(False)       # a second get_registry on id 2 is an ill-formed history (C02)
+    got = []
+    mgr = ConnectionManager()
+
+    class Sink:
+        # the real connection manager (messages are resolved against the shipped protocol descriptions), observed
+        def open_connection(self, t, cid, role):
+            return mgr.open_connection(t, cid, role)
+        def close_connection(self, t, cid):
+            return mgr.close_connection(t, cid)
+        def message(self, cid, m):
+            got.append((cid, m))
+            return mgr.message(cid, m)
+
+    class F:
+        def __init__(self):
+            self.i = 0
+        def readline(self, size=-1):
+            self.i += 1
+            return STREAM_LINES[idx[self.i - 1]][0] + chr(10) if self.i <= n else ''
+    out, err = RecStream(), RecStream()
+    parse.into_sink(F(), Output(False, True, out, err), Sink())
+    want = [STREAM_LINES[i][1] for i in idx if STREAM_LINES[i][1] is not None]
+    ctx.check('as many messages reported as there are message lines (none invented, none swallowed)', len(got) == len(want))
+    for (cid, m), w in zip(got, want):
+        ctx.check('each message line decodes to the message it denotes, whatever the line before it was',
+                  (m.sent, m.obj.type, m.obj.id, m.name, len(m.args)) == w[1:] and cid == (w[0] or 'PARSED'))
+    ctx.check('every line that is no message is passed through, once', len([x for x in out.items if x.lstrip().startswith('|')]) == n - len(want))
+    ctx.check('no error output', err.items == [])
+
+
 def obligations(tier):
     from spec import printer_grammar as G
     obs = [
@@ -690,6 +755,9 @@ def obligations(tier):
         Ob('argument-splitter', 'symx', 'argument_list_strs on argument texts with symbolic characters: quoted strings with arbitrary payload (commas, brackets, parentheses, spaces) and bare tokens come back unsplit and unmerged',
            FUNCS_GLUE[3:5], 'all token shapes of <= 3 arguments: strings with payload of 0..%d arbitrary characters, bare tokens of 1..2; every printable ASCII character except " and backslash' % (3 if tier == 'quick' else 4),
            splitter, cases=_splitter_shapes(tier), stubs=['the argument text is an SWord (list of symbolic code points)']),
+        Ob('line-by-line', 'symx', 'streams through the real line loop: each printer line decodes to what it denotes whatever preceded it (cut-off lines, chatter with an open quote); non-messages are never reported as messages',
+           FUNCS_GLUE[:1] + ['backends.libwayland_debug_output.parse:Parser.parse_all', 'backends.libwayland_debug_output.parse:Parser.handle_message'],
+           'all streams of <= %d lines from a pool of %d (3 of them cut off inside a string / an argument list)' % (3 if tier == 'quick' else 4, len(STREAM_LINES)), stream_lines, cases=[1, 2, 3] if tier == 'quick' else [1, 2, 3, 4]),
         Ob('generated-lines', 'smt', 'solver-generated printer lines (every ordered pair of argument productions, tricky string payloads) decoded end to end by the real parse.message vs the reference decoder',
            FUNCS_GLUE, 'one or two arguments per line; all productions; 5 variants x 2 directions', run_generated, cases=G.variants() if tier != 'quick' else G.variants()[:1] + G.variants()[4:],
            replay=replay_line),
